@@ -1,5 +1,5 @@
 """property id -> units and reporting metadata (single source for MANIFEST.json)"""
-from units import specificity, best, fragments, static_list, hashing, vptrs, resolve, generator, handlers, virtual_ptr
+from units import specificity, best, fragments, static_list, hashing, vptrs, resolve, generator, handlers, virtual_ptr, deferred
 
 A_TABLES = ('compiler::build_dispatch_tables (grouping of classes by applicability mask, strides, recursion order) '
             'and assign_slots / assign_tree_slots / assign_lattice_slots are NOT under contract '
@@ -99,6 +99,14 @@ PROPS = {
         'level': 'proof',
         'technique': 'TBD', 'level_text': 'TBD', 'level_note': 'TBD',
         'design_ref': 'DESIGN.md section 6 C09',
+        'unverified': [],
+        'assumptions': [],
+    },
+    'C10': {
+        'units': [deferred.jobs, vptrs.jobs, hashing.jobs],
+        'level': 'proof',
+        'technique': 'TBD', 'level_text': 'TBD', 'level_note': 'TBD',
+        'design_ref': 'DESIGN.md section 6 C10',
         'unverified': [],
         'assumptions': [],
     },
